@@ -13,7 +13,7 @@ import time
 
 VERIF = os.path.dirname(os.path.dirname(os.path.abspath(__file__)))
 SPEC = os.path.join(VERIF, "spec")
-BUILD = os.path.join(VERIF, "build")
+BUILD = os.path.join(os.environ["VERIF_SCRATCH"], "build") if os.environ.get("VERIF_SCRATCH") else os.path.join(VERIF, "build")
 JAR = "/opt/veriftools/tla/tla2tools.jar"
 DEPS = "/opt/veriftools/tla/CommunityModules-deps.jar"
 
